@@ -25,6 +25,7 @@ type verifOS struct{}
 var vos verifOS
 
 var verifOps int
+var verifMatched bool
 
 func verifPoint(op, path string) error {
 	verifOps++
@@ -45,6 +46,14 @@ func verifPoint(op, path string) error {
 		m := strings.SplitN(v, "|", 3)
 		if len(m) == 3 && m[0] == op && strings.Contains(path, m[1]) && strings.HasSuffix(path, m[2]) {
 			os.Exit(137)
+		}
+	}
+	if v := os.Getenv("VERIF_FSERR_MATCH"); v != "" {
+		// "<op>|<substring of the path>|<second substring>": the first such operation fails with ENOSPC
+		m := strings.SplitN(v, "|", 3)
+		if len(m) == 3 && m[0] == op && strings.Contains(path, m[1]) && strings.Contains(path, m[2]) && !verifMatched {
+			verifMatched = true
+			return &fs.PathError{Op: op, Path: path, Err: syscall.ENOSPC}
 		}
 	}
 	if v := os.Getenv("VERIF_FSERR"); v != "" {
